@@ -176,7 +176,11 @@ class Ctx:
             cmd += ["-coverage", "1"]
         cmd.append(root_module + ".tla")
         env = dict(os.environ)
-        jto = "-Xss512m"
+        # TLC unpacks its standard modules into java.io.tmpdir on every run and leaves them there: keep that inside the
+        # run's scratch directory (removed with it) instead of littering /tmp
+        jtmp = os.path.join(d, "jtmp")
+        os.makedirs(jtmp, exist_ok=True)
+        jto = "-Xss512m -Djava.io.tmpdir=" + jtmp
         if deque:
             jto += " -Dtlc2.tool.queue.IStateQueue=StateDeque"
         env["JAVA_TOOL_OPTIONS"] = jto
